@@ -129,7 +129,7 @@ class H:
         sim.log("ident", where=where, changed=bad_same, shared=shared, n=len(items))
 
     # ---------------------------------------------------------------- dispatch
-    def dispatch(self, chan: list, evi: Any = None, task: str = "") -> None:
+    def dispatch(self, chan: list, evi: Any = None, task: str = "", relay: bool = False) -> None:
         sim = self.sim
         spec = self.plan["classes"]
         iid, attr = chan
@@ -145,6 +145,11 @@ class H:
         with warnings.catch_warnings(record=True) as wl:
             warnings.simplefilter("always")
             try:
+                if relay:
+                    # the event object has been dispatched before, on the same signal of
+                    # another owner (an event being relayed): this dispatch stamps it anew
+                    scratch = type(self.inst[iid])()
+                    getattr(scratch, attr).dispatch(ev)
                 s.dispatch(ev)
             except BaseException as e:  # noqa: BLE001
                 exc = f"{type(e).__name__}"
@@ -185,6 +190,8 @@ class H:
                 await sim.pause(a[1], a[2])
             elif a[0] == "d":
                 self.dispatch(a[1])
+            elif a[0] == "dr":
+                self.dispatch(a[1], relay=True)
             elif a[0] == "dbad":
                 sim.fault("wrong_class_dispatch")
                 self.dispatch(a[1], a[2])
@@ -339,6 +346,37 @@ class H:
                     self.dispatch(a[3])
             elif op == "gcprobe":
                 await self.gcprobe(a[1])
+            elif op == "ctx_owner":
+                await self.ctx_owner()
+
+    async def ctx_owner(self) -> None:
+        """The owner of the signals is a Context (subclass) that is entered and left: its
+        bound signals stay what they were - before, inside and after."""
+        from asphalt.core import Context as _Context
+
+        sim = self.sim
+
+        class SigCtx(_Context):
+            changed = Signal(Ev0)
+
+        c = SigCtx()
+        before = (c.changed, c.resource_added)
+        got: list = []
+        async with c.changed.stream_events() as stream:
+            async with c:
+                inside = (c.changed, c.resource_added)
+            after = (c.changed, c.resource_added)
+            e = Ev0(-7)
+            c.changed.dispatch(e)
+            with move_on_after(0.5):
+                ev = await stream.__anext__()
+                got.append(ev is e and ev.source is c)
+        sim.log(
+            "ctx_owner",
+            same_inside=all(x is y for x, y in zip(before, inside)),
+            same_after=all(x is y for x, y in zip(before, after)),
+            delivered_after=bool(got and got[0]),
+        )
 
     async def gcprobe(self, spec: dict) -> None:
         """Bind and use signals of short-lived instances; they must be collectable, and a new
@@ -377,7 +415,19 @@ class H:
                 if e2.source is not ob or e2.topic != attr or getattr(ob, attr) is not getattr(ob, attr):
                     fresh_ok = False
             del batch
-            results.append({"delivered_own": got[0] and fresh_ok, "same": same, "collected": collected})
+            # ... and an owner is collectable while somebody who holds only its *bound signal* is
+            # still subscribed to it
+            o2 = cls()
+            sig2 = getattr(o2, attr)
+            ref2 = weakref.ref(o2)
+            cm2 = sig2.stream_events()
+            stream2 = await cm2.__aenter__()
+            del o2
+            gc.collect()
+            collected_subscribed = ref2() is None
+            await cm2.__aexit__(None, None, None)
+            del stream2, cm2, sig2
+            results.append({"delivered_own": got[0] and fresh_ok, "same": same, "collected": collected, "collected_subscribed": collected_subscribed})
         sim.log("gcprobe", cls=spec["cls"], results=results)
 
 
@@ -656,10 +706,18 @@ def oracle(sim: Sim, plan: dict) -> list[dict]:
                     v("C11.unbound", what, f"class-level {what} on attribute {d['attr']} gave {res}, expected UnboundSignal")
             if not d["is_declaration"]:
                 v("C11.unbound", "class_access", "class-level attribute access did not return the Signal declaration")
+        elif kind == "ctx_owner":
+            if not d["same_inside"] or not d["same_after"]:
+                v("C11.identity", "changed_across_context_lifetime", f"bound signals of a Context owner changed identity when it was entered/left: {d}")
+            if not d["delivered_after"]:
+                v("C11.channel", "lost_after_owner_closed", f"a subscriber attached before a Context owner was closed did not get the event dispatched on it afterwards: {d}")
+                v("C10.window", "lost_after_owner_closed", f"a subscriber attached before a Context owner was closed did not get the event dispatched on it afterwards: {d}")
         elif kind == "gcprobe":
             for i, res in enumerate(d["results"]):
                 if not res["collected"]:
                     v("C11.weakref", "kept_alive", f"instance with bound+used signals was not collectable (round {i})")
+                if res.get("collected_subscribed") is False:
+                    v("C11.weakref", "kept_alive_by_subscription", f"an owner was not collectable while a subscriber held (only) its bound signal (round {i})")
                 if not res["delivered_own"] or not res["same"]:
                     v("C11.channel", "fresh_instance", f"a fresh instance did not get its own working channel: {res}")
                     v("C10.stamp", "fresh_instance", f"an event dispatched on a fresh instance was not delivered to its own subscriber stamped with that instance as source: {res}")
@@ -780,7 +838,7 @@ def gen(rng: random.Random, tier: str, prop: str) -> dict:
             if r < 0.35:
                 acts.append(["p", rng.choice((0, 0, 1, 1, 2)), rng.choice((0.0, 0.0, 0.0, 0.25, 0.5, 1.0))])
             elif r < 0.92:
-                acts.append(["d", list(rng.choice(hot if rng.random() < 0.85 else chans))])
+                acts.append(["d" if rng.random() < 0.9 else "dr", list(rng.choice(hot if rng.random() < 0.85 else chans))])
             elif r < 0.95:
                 c = rng.choice(chans)
                 acts.append(["dbad", list(c), rng.choice((0, 1, 2))])
@@ -802,8 +860,10 @@ def gen(rng: random.Random, tier: str, prop: str) -> dict:
             if rng.random() < 0.5:
                 ub.append(list(rng.choice(hot if rng.random() < 0.7 else chans)))
             macts.append(ub)
-        else:
+        elif r < 0.93:
             macts.append(["gcprobe", {"cls": rng.randrange(ncls), "rounds": rng.choice((1, 2, 3))}])
+        else:
+            macts.append(["ctx_owner"])
     if macts:
         tasks.append({"kind": "misc", "name": "misc", "acts": macts})
     rng.shuffle(tasks)
